@@ -9,7 +9,8 @@ LEVEL = "model_checking"
 BOUNDS = {
     "quick": "piecewise-constant and piecewise-linear functions with 1..4 pieces, arbitrary real breakpoints and "
              "values; symbolic interval ends a < b (plus a split point c and a second interval) anywhere in the "
-             "support; symbolic evaluation times (scalar and list of two)",
+             "support; symbolic evaluation times (scalar and list of two), also with integer-valued function values; "
+             "query/modify/query sequences on one object (QMQ, QAQ, QMAQ, QAMQ, QCMQ, QQ, MQMQ; 1..3 pieces, add only with <= 2)",
     "thorough": "1..8 pieces, same symbolic interval ends / times",
 }
 OUTSIDE = "more pieces; lists of more than two intervals / times; float rounding"
